@@ -23,5 +23,6 @@ P_C01_Scope    == Scope(family, decl)
 P_C01_Order    == Order(family, decl)
 P_C01_Fresh    == FreshOk(family, decl)
 P_C01_Bounds   == Bounds(family, decl)
+P_C01_Additive == Additive(family, decl)
 Emit == EmitCases /\ family = "split" => PrintT(<<"CASE", ToJson([decl |-> decl])>>)
 =============================================================================
